@@ -70,3 +70,9 @@ func init() {
 		propMeta[id] = m
 	}
 }
+
+func init() {
+	m := propMeta["C17"]
+	m.Rule += " Half of the runs take the server setting and the first tunnel's capability value from the seed (cell = seed mod 262144: bits 0-15 the value, bits 16-17 the setting), so that 262144 consecutive seeds visit every cell of {4 settings} x {65536 values} once; the thorough tier's 1.5 million seeds cover the product several times, the quick tier a deterministic slice of it."
+	propMeta["C17"] = m
+}
